@@ -14,6 +14,10 @@ from .. import core, gen, refparse, chan, dialects, e1
 from ..core import Property, RunOut, Violation
 from ..gen import END, PARTIAL, Tok
 
+import re as _re
+# a '#' line comment whose line ends in a dash: "# ----<line end>"
+_DASH_HASH = _re.compile(r"(#[^\n\r\f]*)-([\n\r\f])")
+
 FAMILY = {"PVL": "strict", "ODL": "strict", "PDS3": "strict",
           "ISIS": "tolerant", "default": "tolerant"}
 
@@ -121,6 +125,17 @@ class C05(Property):
                     viol("altered-or-missing-statement",
                          "%s %s-level: returned %r, the text denotes %r" %
                          (config, level, got, exp))
+        if vs and not case.get("_counterfactual") and \
+                _DASH_HASH.search(case["text"]):
+            # Is it the known interplay of '#' comments and dash
+            # continuation?  Only if the very same case is fine once the
+            # dash that ends the comment line is something else.
+            t2 = _DASH_HASH.sub(lambda m: m.group(1) + "~" + m.group(2),
+                                case["text"])
+            v2 = self.execute_case(dict(case, text=t2, _counterfactual=1))[2]
+            if not v2:
+                for v in vs:
+                    v.raw_sig = "hash-comment-ending-in-a-dash|" + fam
         if out is not None:
             out.evals += 1
             out.inc("verdict.%s/%s" % (verdict[0], o.kind if o.kind in (
@@ -140,6 +155,7 @@ class C05(Property):
     # ---- one run
     def run(self, rng, index, tier):
         out = RunOut()
+        gen.Layout.dash_hash = True
         config = rng.choice(dialects.CONFIGS)
         stmts, toks, text, style = gen.render_doc(
             rng, config, max_stmts=rng.choice([1, 2, 3, 4, 6, 8]))
@@ -271,6 +287,17 @@ class C05(Property):
             do(text_case(e1.apply_plan(toks, plan)), i)
             do(chan_case(plan), i)
 
+        # (b3) a units expression with a delimiter too many
+        for i in [i for i, t in enumerate(toks[:live])
+                  if t.kind == gen.UNITS][:2]:
+            bad = rng.choice(["<" + toks[i].text, toks[i].text + ">",
+                              "<" + toks[i].text + ">"])
+            plan = [{"kind": "replace", "at": i, "tkind": gen.BADUNITS,
+                     "text": bad, "val": None}]
+            out.inc("fault.text-replace")
+            out.inc("probe.units-delimiter-doubled")
+            do(text_case(e1.apply_plan(toks, plan)), i)
+
         # (c) a very long token (a long description, an embedded table):
         # well-formed, every later statement must still be there; torn, the
         # load must raise.  Sizes straddle 2**15 and 2**16.
@@ -363,6 +390,8 @@ class C05(Property):
                               + toks[j + 1:])
 
     def signature(self, case, v):
+        if str(v.raw_sig).startswith("hash-comment-ending-in-a-dash|"):
+            return v.raw_sig
         base = [e1.tok_from(j) for j in case["tokens"]]
         if case["level"] == "chan":
             dam = e1.apply_plan(base, case["plan"])
